@@ -198,6 +198,36 @@ func fullBufferNamed(t *testing.T, prop string) {
 	}
 }
 
+// straddle: the two halves of a move fall into different reads - the
+// IN_MOVED_FROM is the last record that fits into the 64 KiB buffer (or the
+// one before / after it), the IN_MOVED_TO opens the next read. The Create must
+// still name the old name.
+func straddle(t *testing.T, prop string) {
+	for _, before := range []int{2046, 2047, 2048} {
+		c := &engine.Case{Prop: prop, Buf: 0}
+		c.Setup = []engine.Step{{K: engine.KMkdir, P: "d0"}, {K: engine.KMkdir, P: "d1"}, {K: engine.KCreate, P: "d0/m00000"}}
+		c.Steps = []engine.Step{{K: engine.KAdd, P: "d0"}, {K: engine.KAdd, P: "d1"}, {K: engine.KPlug}}
+		for i := 0; i < before; i++ {
+			c.Steps = append(c.Steps, engine.Step{K: engine.KCreate, P: engine.P(fmt.Sprintf("d0/f%05d", i))})
+		}
+		c.Steps = append(c.Steps, engine.Step{K: engine.KRename, P: "d0/m00000", Q: "d1/n00000"}, engine.Step{K: engine.KCreate, P: "d1/after"},
+			engine.Step{K: engine.KSync}, engine.Step{K: engine.KList})
+		w := engine.Exec(c)
+		engine.RecordCase(prop, &engine.Case{Prop: prop, Buf: c.Buf, Steps: append(append([]engine.Step(nil), c.Steps[:5]...), c.Steps[len(c.Steps)-4:]...)}, w, true)
+		engine.StatsFor(prop).AddFeat("moves-straddling-two-reads", 1)
+		if rep := engine.Report(c, w, engine.Owned[prop]); rep != nil {
+			msg := strings.Join(rep, "\n")
+			if len(msg) > 3000 {
+				msg = msg[:3000]
+			}
+			t.Fatalf("property %s violated (replay %s)\n%d creations, then a move whose halves fall into different reads\n%s", prop, engine.SaveReplay(prop, c), before, msg)
+		}
+	}
+}
+
+func TestC11Straddle(t *testing.T) { straddle(t, "C11") }
+func TestC14Straddle(t *testing.T) { straddle(t, "C14") }
+
 func TestC01FullBufferNamed(t *testing.T) { fullBufferNamed(t, "C01") }
 func TestC08FullBufferNamed(t *testing.T) { fullBufferNamed(t, "C08") }
 
